@@ -50,8 +50,10 @@ def gen(rng, n):
             out.append(S.gen_case(rng, "C12"))
         elif g < 0.70:
             out.append(S.gen_inherit_case(rng, "C12"))
-        elif g < 0.90:
+        elif g < 0.85:
             out.append(S.gen_chain_contended_case(rng, "C12"))
+        elif g < 0.93:
+            out.append(S.gen_reuse_case(rng))
         else:
             out.append(S.gen_chain_case(rng))
     return out
